@@ -22,7 +22,7 @@ func init() {
 		"(R5) no error of an API read is swallowed: when a Get/List — or a repository function that forwards such an error — fails, the caller returns an error depending on it, collects it into the sync's error list, or the failure is an IsNotFound (two named exceptions in the status-only settings reconciler), so nothing is planned on a partial view; "+
 		"(R6) the two-step rollback write (status, then spec) is recomputed from scratch on the next reconcile, and the failed mark it depends on is reset only in the active role; "+
 		"(R7) no API write is guarded by a persisted condition of the reconciled replica set that the same invocation resets (such a write would never be retried after one failed attempt). "+
-		"Safety at every intermediate fault point and convergence after faults are histories and are NOT decided.", runC11)
+		"Safety at every intermediate fault point and convergence after faults are histories and are NOT decided. (R9, imported C04.R10) labelling the canary pods is level-triggered: the label pass is reached on every non-error return of the canary strategy, so a rejected or lost label Patch is retried by the next reconcile whatever the persisted counters say.", runC11)
 }
 
 var c11Stateless = []struct{ prefix, reason string }{
